@@ -56,8 +56,15 @@ ALIAS_NESTED = [("a", "a.b"), ("a.b", "a"), ("deep", "deep.x.y"), ("deep.x.y", "
                 ("m", "deep.x"), ("deep.x.q", "deep")]
 ALIAS_MAPS = [".", "m", "a", "deep", "deep.x", "deep.x.y", "n.e", "n", "m"]
 ALIAS_SUFFIX = ["", "", "_x", "_" + "long" * 12]
-# ops that make more than one mutating library call (checks/C12.py never takes them as the op under test)
-ALIAS_COMPOSITE = {"pacopysub", "padelvia", "paimportvia", "pakeys", "capsetvia", "capcopy", "capimport", "capkeys"}
+# self-aliasing ops that checks/C12.py never takes as the op under test (they still run in the histories, before and after the faulted op):
+#  - ops that make more than one mutating library call;
+#  - ops whose mutator is vnaproperty_vset / _copy / _import_yaml: not atomic under allocation failure (known finding DM55, reported
+#    under the plain ops pset / pcopy / pimports / cpset); a failed call may also have removed the very node the getter read;
+#  - casave: a failed vnacal_save leaves the vnacal_t without file name (as after vnacal_create), so the getter of the repeat has
+#    nothing to return; the same code path under allocation failure is csave to the current name.
+ALIAS_COMPOSITE = {"pacopysub", "padelvia", "paimportvia", "pakeys", "capsetvia", "capcopy", "capimport", "capkeys",
+                   "paset", "pacopy", "paimports", "capset", "capexport",
+                   "casave"}
 P_ALIAS = {"p": 0.10, "d": 0.12, "c": 0.10, "n": 0.05}
 
 
